@@ -7,7 +7,7 @@ from checks.coords import SymCoords
 from symx import skeletons as SK
 
 SKELS = ["cat3", "two_tree", "two_parents", "disjoint_node", "three_pieces", "two_roots",
-         "swap_child", "unary_nonsample"]
+         "swap_child", "unary_nonsample", "root_pieces", "sample_parent_pieces"]
 KNOWN_BAD = ["isolated_sample_mutation", "trailing_gap", "edgeless_sample_mutation"]
 
 
